@@ -498,6 +498,9 @@ func runBS(f *fixture, r *Rng, z bool, kind string, sz int) *ucase {
 	var pieces [][]byte
 	rest := wire
 	k := 1 + r.Intn(4)
+	if forceMsgs > 0 {
+		k = forceMsgs
+	}
 	for len(rest) > 1<<20 || (k > 1 && len(rest) > 0) {
 		c := 1 + r.Intn(len(rest))
 		if c > 1<<20 {
